@@ -45,7 +45,8 @@ class Sym:
         self.fld = [fields_of(t) for t in case["tms"]]
         self.slots = [0] * n
         self.tracks = [{"ids": list(range(n)), "names": [], "valid": set()}]
-        self.tainted = False
+        self.tainted = False      # an exception left partial effects on a misaligned table: feature checks stop
+        self.lost = False         # the oracle can no longer tell which object is which: all checks stop
 
     # ---- queries
     def tms(self, h):
